@@ -51,7 +51,11 @@ CHECKS['C03'] = dict(
           'batches are consecutive slices of the pending list (disjoint, ordered, non-empty, within the limit, covering '
           'exactly the pending positions); the call log is the pending list (exactly once, never a completed position); '
           'final results are f(row) on pending positions and untouched elsewhere; status is 1 everywhere; the outcome '
-          'does not depend on the batch limit or the worker count. Correspondence: real compute() of a logging Process '
+          'does not depend on the batch limit or the worker count; pending_at_start / legacy_resume - what "pending at start" '
+          'is (initialStatus, the model of __create_compute_status_dataset): the zero entries of an existing status '
+          'dataset, positions k..N-1 of a group left by an old version with last_pixel = k, every position of a fresh '
+          'group, and resuming such a legacy group invokes the map function for k..N-1 only, leaves earlier results alone '
+          'and marks everything. Correspondence: real compute() of a logging Process '
           'subclass (serial, joblib multi-core, lazy, separate target file) vs the model.'),
     note=COMMON_NOTE + 'joblib worker scheduling is not modelled: order preservation for cores > 1 is sampled, not proved.',
     ref='§5 C03')
@@ -203,7 +207,13 @@ CHECKS['C10'] = dict(
           '(make_indices_matrix is the grid whose first dimension is fastest, its sort order is the identity, '
           'transpose_reshape_core); flatten_squeezed_pos / flatten_squeezed_spec - a one-point placeholder side whose axis '
           'is absent from the N-D array (the form reduce() hands over when a whole side is reduced) gives a 1 x M / N x 1 '
-          'matrix holding the array element at the indices of each column / row. PARTIAL: a missing side containing a '
+          'matrix holding the array element at the indices of each column / row; one_sided_pos_size / one_sided_spec_size '
+          '- whatever a one-sided request returns is an N x M matrix with N (M) taken from the supplied matrix and N * M '
+          'the number of elements of the array (numpy transpose keeps the element count: transposeND_size, a permutation '
+          'argument); one_sided_pos_incompatible_raises / one_sided_spec_incompatible_raises - when the leading '
+          '(trailing) axes that must hold the supplied side hold another number of points than that matrix has rows '
+          '(columns), the request is refused for EVERY array and matrix - the criterion the oracle applies to arrays '
+          'arranged the wrong way round. PARTIAL: a missing side containing a '
           'size-1 dimension (which make_indices_matrix refuses unless it is the only one) is decided by the '
           'oracle and the model comparison, not by a theorem. Correspondence: h5py / numpy / '
           'dask ancillaries, dask data, kept or squeezed size-1 axes, one-sided requests, all three branches.'),
@@ -232,7 +242,8 @@ CHECKS['C02'] = dict(
     technique='Lean 4 theorems over a step-ordered model of write_main_dataset on an abstract HDF5 group (atomicity, validity via the C06 rule set, coordinates via C08) + differential correspondence with retry',
     text=('Theorems (Usid/Properties/C02.lean): reject_atomic - for EVERY group and argument set, a rejected call returns the '
           'group exactly as it found it (all checks precede the first creation in the model, which follows the order of '
-          'the source); accept_valid - an accepted call adds a main dataset satisfying every rule of the C06 rule set, '
+          'the source); malformed_reuse_rejected - an ancillary pair offered for reuse whose two matrices differ in '
+          'shape is refused on either side and nothing has been created; accept_valid - an accepted call adds a main dataset satisfying every rule of the C06 rule set, '
           'linked to ancillary pairs covering exactly n positions / m spectroscopic points, and for a side given as a '
           'dimension list the linked pair is exactly writeIndVal(dims, slow_to_fast); accept_faithful - that pair stores '
           'the dimensions slowest-first under both flags with label, unit, indices and values of the same dimension on '
